@@ -34,6 +34,9 @@
 (***************************************************************************)
 EXTENDS Kanren, Json
 
+(* what the `show` leaf records of a term: its JSON text when ground *)
+ShowOf(t) == IF Ground(t) THEN ToJson(t) ELSE "<nonground>"
+
 Succeed == <<"succeed">>
 FailG == <<"fail">>
 IsSucceed(g) == g[1] = "succeed"
@@ -180,7 +183,7 @@ Solve(g, st, fuel, D) ==
     [] g[1] = "fail" -> Res(Empty, 0, FALSE)
     [] g[1] = "atom" ->
          (IF g[2][1] = "show"
-          THEN Res(Unit([st EXCEPT !.u.trail = Append(@, ToJson(WalkStar(Norm(g[2][2]), st.smap)))]), 0, FALSE)
+          THEN Res(Unit([st EXCEPT !.u.trail = Append(@, ShowOf(WalkStar(Norm(g[2][2]), st.smap)))]), 0, FALSE)
           ELSE IF g[2][1] = "isnum"
           THEN Res(IF IsNum(Norm(g[2][2])) THEN Unit(st) ELSE Empty, 0, FALSE)
           ELSE IF g[2][1] = "isground"
